@@ -91,3 +91,26 @@ package oracles
 //@   ensures accepted: result == nil && EnableTSValidation.v != 0 && readTS != 18446744073709551615 ==> exists t uint64 :: issued(t) && readTS <= t
 //@   ensures rejected: typeIs(result, oracle.ErrFutureTSRead) ==> readTS > o.floor && o.vcalls >= 2
 //@   ensures latest: EnableTSValidation.v != 0 && readTS == 18446744073709551615 && isStaleRead ==> result != nil
+
+// ---- the two in-process oracles ---------------------------------------------------------------------------------------------
+// MockOracle: every timestamp handed out is recorded as the last one (so the next request in the same millisecond is
+// bumped past it) and differs from the previous one; within one millisecond it is exactly the previous one plus one; a
+// stopped oracle hands out nothing and records nothing. (A clock or offset that jumps backwards is outside what the mock
+// protects against.)
+//@ func (o *MockOracle) GetTimestamp
+//@   prop C13
+//@   may-panic
+//@   opaque-callee GoTimeToTS Now Add WithStack
+//@   ensures recorded: result1 == nil ==> o.lastTS == result0 && result0 != old(o.lastTS)
+//@   ensures stopped: old(o.stop) ==> result1 != nil && o.lastTS == old(o.lastTS)
+//@   ensures running: !old(o.stop) ==> result1 == nil
+// localOracle: the pair (lastTimeStampTS, n) records the last value handed out, lastTimeStampTS + n; a request in the same
+// millisecond gets exactly one more than that, a request in another millisecond restarts the counter.
+//@ func (l *localOracle) GetTimestamp
+//@   prop C13
+//@   may-panic
+//@   opaque-callee GoTimeToTS Now
+//@   requires room: l.n < 18446744073709551615
+//@   ensures issued: result1 == nil && (mathint(l.lastTimeStampTS) + mathint(l.n) <= 18446744073709551615 ==> mathint(result0) == mathint(l.lastTimeStampTS) + mathint(l.n))
+//@   ensures same: l.lastTimeStampTS == old(l.lastTimeStampTS) ==> l.n == old(l.n) + 1
+//@   ensures other: l.lastTimeStampTS != old(l.lastTimeStampTS) ==> l.n == 0
